@@ -24,6 +24,7 @@ type CfgRun struct {
 	NilCtx  []bool
 	Log     *Log // the log the program's custom operators write to (state of stateful operators lives here)
 	Fast    bool
+	Events  int // compiled with ReportEvent (1) / Debug (2): every evaluation needs a consumer
 
 	RefVal   interface{}
 	RefErr   error
@@ -40,7 +41,7 @@ func runCfg(pid string, u *Universe, src string, b Build) (*CfgRun, *Violation) 
 	if co.Panic != nil || co.Err != nil || e == nil {
 		return nil, Violf("%s: well-formed expression does not compile under %s\nsrc=%s\noutcome=%v", pid, maskName(b.Mask), src, co)
 	}
-	run := &CfgRun{Mask: b.Mask, Expr: e, Cfg: cc, Compile: append([]m.Ev(nil), log.Ev...), NilCtx: append([]bool(nil), log.NilCtx...), Log: log, Fast: b.Mask&MaskFast != 0}
+	run := &CfgRun{Mask: b.Mask, Expr: e, Cfg: cc, Compile: append([]m.Ev(nil), log.Ev...), NilCtx: append([]bool(nil), log.NilCtx...), Log: log, Fast: b.Mask&MaskFast != 0, Events: b.Events}
 	var o Outcome
 	run.Dump, o = SafeStr(func() string { return eval.Dump(e) })
 	if o.Panic != nil {
@@ -59,7 +60,7 @@ func runCfg(pid string, u *Universe, src string, b Build) (*CfgRun, *Violation) 
 	calls := log.Calls()
 	log.Reset()
 	f := NewFetcher(u, cc, log)
-	run.Out = Safe(func() (eval.Value, error) { return e.Eval(f.Ctx()) })
+	run.withConsumer(func() { run.Out = Safe(func() (eval.Value, error) { return e.Eval(f.Ctx()) }) })
 	run.Trace = append([]m.Ev(nil), log.Ev...)
 	if len(log.KeyErrs) != 0 {
 		return nil, Violf("%s: variable fetched under a wrong key: %v\nsrc=%s", pid, log.KeyErrs, src)
@@ -69,6 +70,15 @@ func runCfg(pid string, u *Universe, src string, b Build) (*CfgRun, *Violation) 
 	run.RefVal, run.RefErr = ref.Eval(dt)
 	run.RefTrace, run.RefApps, run.RefSC = ref.Trace, ref.Apps, ref.ShortCircuits
 	return run, nil
+}
+
+// withConsumer runs f with a draining event consumer attached when the program reports events.
+func (r *CfgRun) withConsumer(f func()) {
+	if r.Events > 0 {
+		collectEvents(r.Expr, f)
+		return
+	}
+	f()
 }
 
 func (r *CfgRun) describe(src string, u *Universe) string {
@@ -108,11 +118,14 @@ func (r *CfgRun) again(pid, src string, u *Universe, nth int, try bool) *Violati
 	calls := r.Log.Calls()
 	r.Log.Reset()
 	f := NewFetcher(u, r.Cfg, r.Log)
-	o := Safe(func() (eval.Value, error) {
-		if try {
-			return r.Expr.TryEval(f.Ctx())
-		}
-		return r.Expr.Eval(f.Ctx())
+	var o Outcome
+	r.withConsumer(func() {
+		o = Safe(func() (eval.Value, error) {
+			if try {
+				return r.Expr.TryEval(f.Ctx())
+			}
+			return r.Expr.Eval(f.Ctx())
+		})
 	})
 	if try {
 		pid += " (TryEval, every variable available)"
